@@ -22,7 +22,7 @@ Section SessionInj.
     session_id a b = session_id c d -> (a = c /\ b = d) \/ (a = d /\ b = c).
   Proof.
     intros Pa Pb Pc Pd H. unfold session_id in H.
-    apply fout_inj in H as [_ H]; [|unfold hash_size; lia].
+    apply fout_inj in H as [_ H]; [|vm_compute; lia].
     rewrite <- !lift_app in H. apply lift_inj in H.
     destruct (lex_gt a b), (lex_gt c d).
     - pose proof (P_prefix_free _ _ _ _ Pb Pd H); subst. apply app_inv_head in H. auto.
